@@ -27,6 +27,9 @@ pub struct LBlock {
     /// only in where they are and what their tags say
     #[serde(default)]
     pub shares_prev: bool,
+    /// the script returns the empty string: still a string, hence one diagnostic carrying it
+    #[serde(default)]
+    pub returns_empty: bool,
 }
 
 /// owner[i] = the block whose script (and content lines) block i uses
@@ -65,6 +68,7 @@ fn script(kind: &str, busy: u32, log: Option<(&str, &str)>) -> String {
     match kind {
         "payload" => format!("function validate(ctx, content)\n{logging}{busy_loop}{payload}end\n"),
         "nil" => format!("function validate(ctx, content)\n{logging}{busy_loop}  return nil\nend\n"),
+        "empty-string" => format!("function validate(ctx, content)\n{logging}{busy_loop}  return table.concat({{}}, \"; \")\nend\n"),
         "syntax-error" => "function validate(ctx, content)\n  return nil end end\n".to_string(),
         "runtime-error" => format!("function validate(ctx, content)\n{busy_loop}  error(\"boom\")\nend\n"),
         "no-validate" => "local function helper() return nil end\nvalidate_typo = helper\n".to_string(),
@@ -151,7 +155,7 @@ pub fn check(c: &LuaCase, probe: &Probe) -> Verdict {
         return Verdict::Unspecified("no blocks");
     }
     let n = c.blocks.len();
-    let mut kind: Vec<&str> = c.blocks.iter().map(|b| if b.plain { "plain" } else if b.returns_nil { "nil" } else { "payload" }).collect();
+    let mut kind: Vec<&str> = c.blocks.iter().map(|b| if b.plain { "plain" } else if b.returns_nil { "nil" } else if b.returns_empty { "empty-string" } else { "payload" }).collect();
     for (bi, k) in &c.failing {
         if !c.blocks[*bi as usize % n].plain {
             kind[*bi as usize % n] = KINDS[2 + *k as usize % (KINDS.len() - 2)];
@@ -164,7 +168,7 @@ pub fn check(c: &LuaCase, probe: &Probe) -> Verdict {
             probe.class("block-sharing-script-and-content-with-an-earlier-one");
         }
     }
-    let any_failing = kind.iter().any(|k| !matches!(*k, "nil" | "payload" | "plain"));
+    let any_failing = kind.iter().any(|k| !matches!(*k, "nil" | "payload" | "plain" | "empty-string"));
     let laid = lay_out(c);
     let sb = if c.diff_mode { Sandbox::new() } else { Sandbox::with_fake_git() };
     let log_path = sb.base.join("calls.log");
@@ -241,6 +245,10 @@ pub fn check(c: &LuaCase, probe: &Probe) -> Verdict {
     let mut want: Vec<(String, u64, String)> = vec![];
     for l in &laid {
         for (i, tag_line, raw, attrs) in &l.blocks {
+            if kind[*i] == "empty-string" {
+                want.push((l.path.clone(), *tag_line as u64, String::new()));
+                continue;
+            }
             if kind[*i] != "payload" {
                 continue;
             }
@@ -302,8 +310,8 @@ pub fn case_strategy() -> BoxedStrategy<LuaCase> {
         1 => Just("ends with nbsp\u{a0}\u{a0}".to_string()),
     ];
     let attr = (prop_oneof![Just("data-x"), Just("note"), Just("k_1"), Just("имя")], proptest::string::string_regex("[ -!#-;=?-~é]{0,12}").unwrap()).prop_map(|(k, v)| (k.to_string(), v));
-    let block = (proptest::collection::vec(text, 0..6), proptest::collection::vec(attr, 0..3), proptest::option::weighted(0.25, 0u8..5), proptest::bool::weighted(0.3), prop_oneof![3 => Just(0u32), 2 => 0u32..2000, 1 => 0u32..300000], 0u8..6, proptest::bool::weighted(0.2), proptest::bool::weighted(0.25))
-        .prop_map(|(lines, extra_attrs, pattern, returns_nil, busy, file, plain, shares_prev)| LBlock { lines: lines.into_iter().map(|l| l.replace("<block", "<blok").replace("</block", "</blok")).collect(), extra_attrs, pattern, returns_nil, busy, file, plain, shares_prev })
+    let block = (proptest::collection::vec(text, 0..6), proptest::collection::vec(attr, 0..3), proptest::option::weighted(0.25, 0u8..5), proptest::bool::weighted(0.3), prop_oneof![3 => Just(0u32), 2 => 0u32..2000, 1 => 0u32..300000], 0u8..6, proptest::bool::weighted(0.2), proptest::bool::weighted(0.25), proptest::bool::weighted(0.1))
+        .prop_map(|(lines, extra_attrs, pattern, returns_nil, busy, file, plain, shares_prev, returns_empty)| LBlock { lines: lines.into_iter().map(|l| l.replace("<block", "<blok").replace("</block", "</blok")).collect(), extra_attrs, pattern, returns_nil, busy, file, plain, shares_prev, returns_empty })
         .boxed();
     (
         prop_oneof![3 => proptest::collection::vec(block.clone(), 1..8), 1 => proptest::collection::vec(block, 8..41)],
@@ -318,7 +326,7 @@ pub fn case_strategy() -> BoxedStrategy<LuaCase> {
 }
 
 pub fn run(run: &mut Run) {
-    run.rule = "random: 1..40 check-lua blocks over up to 5 files (root and nested directories, one with a space; py/sh/toml/yaml), each with its own generated script, except that 25% reuse the script and the content lines of the nearest earlier scripted block (same or other file; only position and tag differ) (20% of the blocks carry no check-lua at all and sit between scripted ones), arbitrary content lines (printable ASCII incl. quotes and backslashes, Unicode, empty and whitespace-only first/last lines), 0..2 extra attributes, optional check-lua-pattern from the key-pattern family; scripts return a framed payload serialising ctx.file, ctx.line, the sorted ctx.attrs and content, or nil, after a busy loop of 0..300000 iterations; in half of the cases 1..3 blocks get a failing script (syntax error, error(), error with a table, no validate, number / boolean / table result) at any index; TOKIO_WORKER_THREADS in {1,2,4,16}, pinned to one core in 30%, `safe` mode with an appended call log in 50%, scan or new-file diff mode. Non-trivial = >= 3 blocks and (a failing script, or busy loops of different lengths).".into();
+    run.rule = "random: 1..40 check-lua blocks over up to 5 files (root and nested directories, one with a space; py/sh/toml/yaml), each with its own generated script, except that 25% reuse the script and the content lines of the nearest earlier scripted block (same or other file; only position and tag differ) (20% of the blocks carry no check-lua at all and sit between scripted ones), arbitrary content lines (printable ASCII incl. quotes and backslashes, Unicode, empty and whitespace-only first/last lines), 0..2 extra attributes, optional check-lua-pattern from the key-pattern family; scripts return a framed payload serialising ctx.file, ctx.line, the sorted ctx.attrs and content, or nil, or (10%) the empty string — still one diagnostic —, after a busy loop of 0..300000 iterations; in half of the cases 1..3 blocks get a failing script (syntax error, error(), error with a table, no validate, number / boolean / table result) at any index; TOKIO_WORKER_THREADS in {1,2,4,16}, pinned to one core in 30%, `safe` mode with an appended call log in 50%, scan or new-file diff mode. Non-trivial = >= 3 blocks and (a failing script, or busy loops of different lengths).".into();
     run.assumptions = vec!["the Tokio schedule is perturbed (worker count, affinity, busy loops), not owned: an interleaving-specific loss could be missed".into()];
     run.shrink_iters = 120;
     run.random("lua", run.tier.pick(500, 12000), case_strategy, check);
